@@ -208,6 +208,20 @@ func (e *Engine) havocLoop(st *State, fr *Frame, h *loopHdr, spec *LoopSpec) {
 	if len(spec.Modifies) > 0 {
 		e.havocDesignators(st, env, spec.Modifies, "loop")
 		st.bumpWatermark()
+		// the modifies clause is an obligation of the loop body: every write inside the body (stores, map updates,
+		// frames of callees) must fall into it or into an object allocated after this point
+		if ds, all, err := e.evalDesignators(st, env, spec.Modifies); err != nil {
+			e.unsupported("modifies of loop %d of %s: %v", h.ord, fr.fn.String(), err)
+		} else {
+			lac := &assignsCtx{all: all, byHeap: map[string][]desig{}, enabled: true, wm: st.wm(), loop: h.ord}
+			for _, d := range ds {
+				lac.byHeap[d.heap] = append(lac.byHeap[d.heap], d)
+			}
+			if fr.loopAC == nil {
+				fr.loopAC = map[*loopHdr]*assignsCtx{}
+			}
+			fr.loopAC[h] = lac
+		}
 		return
 	}
 	// default frame: a syntactic over-approximation of what the loop writes
